@@ -26,8 +26,26 @@ func genC03(seed uint64, tier string, idx int) *Plan {
 		n := 4 + g.r.intn(30)
 		var frames []SentFrame
 		var pool [][]byte
+		// some terminals change their header version in mid-connection: the same per-connection receivers then see
+		// bodies of both layouts
+		mixedVer := g.r.chance(20)
+		oPhone := append(make([]byte, 4), phone...)
+		if v19 {
+			oPhone = append([]byte(nil), phone[len(phone)-6:]...)
+		}
 		for i := 0; i < n; i++ {
 			id := ids[g.r.intn(len(ids))]
+			if mixedVer && i > 0 && g.r.chance(35) {
+				body := g.wellFormedBody(id, !v19, oPhone)
+				if g.r.chance(30) {
+					body = g.advBody(id, !v19, oPhone)
+				}
+				if len(body) > 1023 {
+					body = body[:1023]
+				}
+				frames = append(frames, g.mkFrameAs(id, g.randSerial(), body, !v19, oPhone))
+				continue
+			}
 			var body []byte
 			switch g.r.intn(4) {
 			case 0, 1:
